@@ -93,7 +93,7 @@ def main(tier):
             jobs.append((label, b, cc, flags, kw))
     # (i) only: names that need escaping inside C string literals / identifiers
     njobs = []
-    for nm in c10.NAME_ALPHABET[:16]:
+    for nm in c10.NAME_ALPHABET[:19]:
         for pos in ('export', 'import-module', 'import-field', 'name-section', 'import-global'):
             njobs.append((nm, pos))
 
